@@ -8,6 +8,11 @@ open KsiVerif KsiVerif.HashChain KsiVerif.HashChainSpec KsiVerif.Tree
 
 def H : HashFn := fun id msg => (Sha.hashById id).map (· msg)
 
+def insertBy (lt : α → α → Bool) (x : α) : List α → List α
+  | [] => [x]
+  | y :: ys => if lt x y then x :: y :: ys else y :: insertBy lt x ys
+def sortBy (lt : α → α → Bool) (l : List α) : List α := l.foldr (insertBy lt) []
+
 def showLink (l : Link) : String :=
   let d := if l.isLeft then "L" else "R"
   match l.sib with
@@ -67,7 +72,7 @@ def verdict (cls model impl : String) (spec : Option String) : String :=
   | some why => s!"specfail {cls} {why}"
   | none => if model == impl then s!"ok {cls}" else s!"diff {cls} model={model}"
 
-def renderEnd (sts : List Nat) (closed : Option Node) (prev : String) : String :=
+def renderEnd (sts : List Nat) (closed : Option Node) (prev : String) (stack : List (Option Node) := []) : String :=
   let st := ",".intercalate (sts.map toString)
   match closed with
   | some r =>
@@ -75,7 +80,10 @@ def renderEnd (sts : List Nat) (closed : Option Node) (prev : String) : String :
     let hs := hashLeafIds r
     s!"{st} {r.level} {rb} {prev}" ++ String.join ((chains r).map fun x =>
       " " ++ showLeaf x ++ (if hs.contains x.1 && rb != "-" && !x.2.2.2.isEmpty then "/A0:1" else "/A-"))
-  | none => s!"{st} - - {prev}"
+  | none =>
+    -- an open forest (never closed, or the close was refused): every leaf still has the chain up to the top of its own sub tree
+    let ls := sortBy (fun a b => decide (a.1 < b.1)) ((stack.filterMap id).flatMap chains)
+    s!"{st} - - {prev}" ++ (if ls.isEmpty then "" else " U" ++ String.join (ls.map fun x => " " ++ showLeaf x ++ "/A-"))
 
 def runTb (algo maxL : Nat) (ops : List String) : String :=
   let step (acc : TbState × List Nat) (op : String) : TbState × List Nat :=
@@ -87,7 +95,7 @@ def runTb (algo maxL : Nat) (ops : List String) : String :=
         | .ok r => ({ s with closed := some r, b := { s.b with stack := [] } }, sts ++ [0])
         | .error e => (s, sts ++ [e])   -- a failed close leaves the builder as it was
     | k :: lv :: hx :: _ =>
-      match lv.toNat?, ofHex hx with
+      match lv.toNat?, ofHex ((hx.splitOn ",").headD "") with
       | some level, some bytes =>
         let content : Content := if k == "h" then .hash bytes else
           match op.splitOn ":" with
@@ -104,7 +112,7 @@ def runTb (algo maxL : Nat) (ops : List String) : String :=
       | _, _ => (s, sts ++ [99999])
     | _ => (s, sts ++ [99999])
   let (s, sts) := ops.foldl step ({ b := { maxLevel := maxL } }, [])
-  renderEnd sts s.closed "-"
+  renderEnd sts s.closed "-" s.b.stack
 
 structure BsState where
   s : Signer
@@ -139,7 +147,7 @@ def runBs (algo : Nat) (prev iv : Option Bytes) (ops : List String) : String :=
       | _, _ => (st, sts ++ [99999])
     | _ => (st, sts ++ [99999])
   let (st, sts) := ops.foldl step ({ s := Signer.new prev iv }, [])
-  renderEnd sts st.closed (match st.s.prev with | some p => toHex p | none => "-")
+  renderEnd sts st.closed (match st.s.prev with | some p => toHex p | none => "-") st.s.b.stack
 
 def handle (inp out : String) : String :=
   let ow := words out
